@@ -136,7 +136,7 @@ def run_case(case):
             if len(out["models"]) != case["folds"]:
                 res.violate("model_count", "returned", returned=len(out["models"]), **extra)
         bad, facts = cv.analyze(log, tabs, case["folds"], model_uids=model_uids, cap=cap,
-                                check_model_count=(out["status"] == "ok"))
+                                check_model_count=(out["status"] == "ok"), complete=(out["status"] == "ok"))
         for kind, detail in bad[:4]:
             res.violate(kind, case["learner"].split(":")[0], detail=detail, **extra)
         res.count("fit_events", facts["n_fit_events"])
